@@ -30,6 +30,9 @@
 (*                           del (-1), getitem (copy: +1 for the reply)     *)
 (*   ProcessExit             a process ends while still holding proxies     *)
 (*   DestroyAtZero, ShmUnlink                                              *)
+(* (StoreIn(container, proxy) = Pickle "store" + RebuildInc/Dec inside the  *)
+(* server with the container as holder.  Definitions with suffix R take    *)
+(* the record itself, the same names without suffix address it by id.)      *)
 (*                                                                         *)
 (* Flags (FALSE = code as found, TRUE = repaired design):                   *)
 (*   InheritOwnsRef  the proxy rebuilt while inheriting owns a reference    *)
